@@ -135,7 +135,7 @@ func checkC12(cx *Ctx, r *Report) {
 	}
 	// emission only after the chain; callbacks answer with HTTP errors
 	for _, c := range w.callsTo(hscope, matchFnKey(w, "xml.WriteXMLMarshalled")) {
-		r.Check(c.Parent() == ch.Fn && ch.inSuffix(c), "R-ORDER", "attr:emit@"+w.InstrPos(c), w.InstrPos(c), "the response is written only after the chain passed", "the response is written before the whole chain passed")
+		r.Check(cx.onlyAfterPass(ch, hscope, c, 0), "R-ORDER", "attr:emit@"+w.InstrPos(c), w.InstrPos(c), "the response is written only after the chain passed", "the response is written before the whole chain passed")
 	}
 	for _, s := range ch.Steps {
 		ef := s.Fn("errorFunc")
@@ -226,6 +226,20 @@ func checkC12(cx *Ctx, r *Report) {
 	// --- filter ------------------------------------------------------------------------
 	cx.checkAttrFilter(r)
 
+	// --- the attributes the filter compares and the answer carries are the user's, unchanged --------------------
+	// (name and name format of an emitted attribute are exactly what storage set: a defaulted or rewritten format
+	// would make the filter match attributes whose stored format differs from the requested one, and miss those it equals)
+	{
+		setterIdx := map[string]int{"value": 1, "name": 1, "friendlyName": 2, "nameFormat": 3, "attributeValue": 4}
+		setter := func(m, p string) string { return fmt.Sprintf("param:provider.(*Attributes).%s/#%d", m, setterIdx[p]) }
+		stdValues := []string{setter("SetEmail", "value"), setter("SetFullName", "value"), setter("SetGivenName", "value"), setter("SetSurname", "value"), setter("SetUserID", "value"), setter("SetUsername", "value"), setter("SetCustomAttribute", "attributeValue")}
+		cx.checkFieldSinks(r, "R-VFG", "attr", vf, []fieldSink{
+			// (the metadata this handler renders for the destination check blanks the values of its attribute list: const:empty)
+			{"saml.AttributeType", "AttributeValue", append([]string{"const:empty"}, stdValues...), stdValues, true, ""},
+			{"saml.AttributeType", "Name", []string{"const:Email", "const:SurName", "const:FirstName", "const:FullName", "const:UserName", "const:UserID", "const:zero[key]", setter("SetCustomAttribute", "name")}, []string{setter("SetCustomAttribute", "name")}, true, ""},
+			{"saml.AttributeType", "NameFormat", []string{"const:urn:oasis:names:tc:SAML:2.0:attrname-format:basic", setter("SetCustomAttribute", "nameFormat")}, []string{setter("SetCustomAttribute", "nameFormat")}, true, ""},
+		})
+	}
 	// --- wiring -------------------------------------------------------------------------
 	q := "decoded:soap.AttributeQueryEnvelope.Body.AttributeQuery"
 	type sink struct {
@@ -257,7 +271,7 @@ func checkC12(cx *Ctx, r *Report) {
 	ls, c5 := vf.CallArgSources(matchStorage("SetUserinfoWithLoginName"), 1)
 	add("SetUserinfoWithLoginName:setter", ls, len(c5), []string{"alloc:{provider.Attributes}*"}, nil, false)
 	ls, c6 := vf.CallArgSources(matchFnKey(w, "provider.makeAttributeQueryResponse"), 4)
-	add("makeAttributeQueryResponse:queried", vf.Deep(ls), len(c6), []string{q + ".Attribute[]", q + ".Attribute", "alloc:*"}, []string{q + ".Attribute[]"}, false)
+	add("makeAttributeQueryResponse:queried", vf.Deep(ls), len(c6), []string{q + ".Attribute[]", q + ".Attribute", "alloc:*"}, []string{q + ".Attribute*"}, false)
 	ls, s7 := vf.FieldStoreSources("soap.ResponseBody", "Response")
 	add("soap.ResponseBody.Response", ls, len(s7), []string{"alloc:{samlp.ResponseType}*"}, []string{"alloc:{samlp.ResponseType}*"}, false)
 	for _, s := range sinks {
